@@ -47,7 +47,9 @@ for p in props:
             },
             "level_note": "NOT decided (honest remainder): " + t["undecided"]
             + " Trusted base: Python's ast module; anchors by qualified name/role (a vanished anchor is exit 2, never a pass); known_findings.txt.",
-            "technique": t["technique"],
+            "technique": t["technique"] + "; all rules read the canonical form of the source (hsa/canon.py: exact normalisation of guard clauses, test polarity, "
+            "conditional expressions, temporaries, accumulation and dispatch loops; reference-guided inlining of new helpers/constants) and are stated over value provenance, "
+            "path conditions with propositional reasoning, reaching-definition value alternatives and finite decision tables, so that behaviour-preserving refactorings do not change the verdict",
         }
     )
 
@@ -67,13 +69,15 @@ manifest = {
             "path": "/verif/hsa",
             "serves_properties": [c["property_id"] for c in checks],
             "kind_free_text": "repository-specific static analyzer on Python ast: symbol/import resolution, union/dispatch extraction, structural patterns with metavariables, "
+            "canonical-form normalisation (canon.py) and alpha-normalisation against the confirmed tree, value provenance, propositional path-condition reasoning, reaching definitions, "
             "affine normal forms, statement CFG with exceptional edges + path-sensitive dataflow, finite decision-table extraction, PDK table evaluator",
         }
     ],
     "checks": checks,
     "not_applicable": not_app,
     "notes": "All checks: exit 0 = every obligation holds or is a listed known finding (KNOWN-FINDING lines); exit 1 = unlisted violation (VIOLATION lines); "
-    "exit 2 = ANALYSIS-ERROR (could not decide; never a silent pass). thorough = quick + the checker's own mutation/benign-twin self-test for that property.",
+    "exit 2 = ANALYSIS-ERROR (could not decide; never a silent pass). thorough = quick + the checker's own self-test for that property: textual breaking variants and benign twins (hsa/variants.py), the confirmed seeded changes of /verif/seeded (must be reported) "
+    "and the behaviour-preserving refactorings of /verif/benign (must leave the verdict unchanged), each re-analysed on a scratch mirror under a temp dir (nothing is executed).",
 }
 (VERIF / "MANIFEST.json").write_text(json.dumps(manifest, indent=1))
 print(f"{len(checks)} checks claimed, {len(not_app)} not applicable")
